@@ -645,6 +645,12 @@ class AttackGraph():
                 f'with id:{node_id}:\n' \
                 + json.dumps(node.to_dict(), indent = 2))
 
+        if node.id is not None and self._id_to_node.get(node.id) is node:
+            raise ValueError(
+                f'Node "{node.full_name}" is already part of the attack '
+                'graph.'
+            )
+
         new_id = node_id if node_id is not None else self.next_node_id
         if new_id in self._id_to_node:
             raise ValueError(f'Node index {new_id} already in use.')
